@@ -254,6 +254,14 @@ class Domain:
         """Evaluates the domain at the given data."""
         raise NotImplementedError
 
+    def _evaluate_user_volume(self, new_domain, /, **data):
+        """A volume that was set with set_volume belongs to the domain: hands it,
+        evaluated at the given data, on to the (partially) evaluated copy new_domain.
+        """
+        if isinstance(self._user_volume, DomainUserFunction):
+            new_domain.set_volume(self._user_volume.partially_evaluate(**data))
+        return new_domain
+
     def len_of_params(self, params):
         """Finds the number of params, for which points should be sampled."""
         num_of_params = 1
@@ -301,7 +309,7 @@ class BoundaryDomain(Domain):
 
     def __call__(self, **data):
         evaluated_domain = self.domain(**data)
-        return evaluated_domain.boundary
+        return self._evaluate_user_volume(evaluated_domain.boundary, **data)
 
     def bounding_box(self, params=Points.empty(), device="cpu"):
         return self.domain.bounding_box(params)
